@@ -59,6 +59,14 @@ class Hash(Engine):
             if len(seen) <= 40:
                 for e in seen:
                     out.append(_unparse(head, [(lab, [x for x in es if x != e]) for lab, es in vs]))
+        # halve every variant's list (long lists)
+        if any(len(es) > 8 for _, es in vs):
+            out.append(_unparse(head, [(lab, es[:len(es) // 2]) for lab, es in vs]))
+            out.append(_unparse(head, [(lab, es[len(es) // 2:]) for lab, es in vs]))
+        # fewer repetitions
+        m = re.match(r"r=(\d+)$", head[3])
+        if m and int(m.group(1)) > 4:
+            out.append(_unparse(head[:3] + ["r=%d" % (int(m.group(1)) // 2)] + head[4:], vs))
         # plain run: no sub-process, no race build
         plain = [re.sub(r"^c=\d+$", "c=0", re.sub(r"^x=\d+$", "x=0", h)) for h in head]
         if plain != head:
